@@ -63,6 +63,19 @@ PROGRAMS = [
     ('<xsl:output method="xml" omit-xml-declaration="yes" indent="yes"/>'
      '<xsl:template match="/"><out><xsl:element name="el"><xsl:attribute name="a">1</xsl:attribute>{FAIL}<xsl:apply-templates/></xsl:element></out></xsl:template>'
      '<xsl:template match="*"><n name="{name()}"><xsl:apply-templates/></n></xsl:template>'),
+    # 6: failure while a GLOBAL variable is being evaluated (its guard / context must not survive the failure)
+    ('<xsl:param name="p" select="\'g\'"/><xsl:output method="xml" omit-xml-declaration="yes"/>'
+     '<xsl:variable name="g1"><g p="{$p}"><xsl:for-each select="//*"><xsl:if test="position() = 2">{FAIL}</xsl:if><i n="{name()}"/></xsl:for-each></g></xsl:variable>'
+     '<xsl:variable name="g2" select="count(//*) + string-length($g1)"/>'
+     '<xsl:template match="/"><out g2="{$g2}"><xsl:copy-of select="$g1"/><xsl:apply-templates select="*"/></out></xsl:template>'
+     '<xsl:template match="*"><e><xsl:value-of select="$g2"/></e></xsl:template>'),
+    # 7: failure inside the content of xsl:attribute / xsl:comment / xsl:processing-instruction (only text nodes may be created there),
+    #    with copy-of of elements and of a result tree fragment in the same program
+    ('<xsl:param name="p" select="1"/><xsl:output method="xml" omit-xml-declaration="yes"/>'
+     '<xsl:template match="/"><xsl:variable name="r"><i><j/>t</i></xsl:variable><out><xsl:copy-of select="$r"/><xsl:copy-of select="*/*[1]"/>'
+     '<xsl:for-each select="//*"><n><xsl:attribute name="a">x<xsl:if test="position() = 2">{FAIL}</xsl:if></xsl:attribute>'
+     '<xsl:comment>c<xsl:if test="position() = 3">{FAIL}</xsl:if></xsl:comment><xsl:processing-instruction name="t">d<xsl:if test="position() = 4">{FAIL}</xsl:if></xsl:processing-instruction>'
+     '<xsl:copy-of select="$r"/></n></xsl:for-each><xsl:value-of select="$p"/></out></xsl:template>'),
 ]
 OUTPUT_FAIL = {'badenc': '<xsl:output encoding="no-such-encoding-x"/>', 'compile': '<xsl:template match="/"><xsl:value-of select="$undeclared"/></xsl:template>'}
 
